@@ -48,6 +48,38 @@ ATOMS = [
  './p', '../p/q', '/abs/p', '~/p', './p/${x}/q', '<nixpkgs>', '<nixpkgs/lib>', 'http://example.org/a?b=c', "a'", "_", "a-b", "a.b-c", 'x.y."z w"', 'x."a.b"', 'x.${y}', 'x."${y}"',
  'true', 'false', 'null', 'builtins.x', 'or', 'a or b', '-1', '!true', '[ -1 ]' if False else '(-1)', '[ (-1) ]', '{ "a b" = 1; }', '{ "${x}" = 1; }', '{ ${x} = 1; }', '{ a."b c".d = 1; }',
 ]
+# further positions for the literal family (fourth round of seeds): argument of a call, body of an inline lambda / with / let /
+# assert, branches, operands, defaults
+ATOM_CONTEXTS = {
+ 'callarg': lambda e: 'f ' + e, 'callarg2': lambda e: 'f x ' + e, 'lam_inline': lambda e: 'x: ' + e, 'formals_inline': lambda e: '{ a }: ' + e,
+ 'with_body': lambda e: 'with p; ' + e, 'let_body': lambda e: 'let\n  v = 1;\nin\n' + e, 'let_value': lambda e: 'let\n  v = ' + e.replace('\n', '\n  ') + ';\nin\nv',
+ 'assert_body': lambda e: 'assert c;\n' + e, 'if_then': lambda e: 'if c then ' + e + ' else y', 'if_else': lambda e: 'if c then y else ' + e,
+ 'paren': lambda e: '(' + e + ')', 'concat_r': lambda e: 'a ++ ' + e, 'update_r': lambda e: 'a // ' + e, 'or_default': lambda e: 'a.b or ' + e,
+ 'formal_default': lambda e: '{ a ? ' + e + ' }: a', 'import_arg': lambda e: 'import ' + e,
+}
+EMPTIES = ['[ ]', '{ }', 'rec { }', '[ a ]', '{ a = 1; }', 'null', '[ [ ] ]', '{ a = { }; }', '[]', '{}']
+# hand-written documents in RFC-0166 layout that combine constructs and repeat them (C02: any number of scopes, bindings, items)
+def _lets(n, body, comments=False):
+    t = body
+    for i in range(n, 0, -1):
+        t = 'let\n' + ('  # layer %d\n' % i if comments else '') + '  v%d = %d;\nin\n' % (i, i) + t
+    return t
+CANON_DOCS = {
+ 'lets3': _lets(3, 'v1 + v2 + v3'), 'lets4': _lets(4, '{\n  a = v1;\n}'), 'lets5_comments': _lets(5, '[\n  v1\n  v5\n]', True),
+ 'pkg_lets3': '# header\n{ lib, stdenv }:\n' + _lets(3, 'stdenv.mkDerivation {\n  pname = "x";\n  version = "1";\n}', True),
+ 'lambda_chain': 'a: b: c: {\n  x = a;\n}', 'lambda_chain_nl': 'a: b: c:\n{\n  x = a;\n}',
+ 'sets_depth5': '{\n  a = {\n    b = {\n      c = {\n        d = {\n          e = 1;\n        };\n      };\n    };\n  };\n}',
+ 'lists_depth4': '[\n  [\n    [\n      [\n        1\n        2\n      ]\n    ]\n  ]\n]',
+ 'list_of_sets': '[\n  {\n    a = 1;\n  }\n  {\n    b = 2;\n  }\n  { c = 3; }\n]',
+ 'many_bindings': '{\n' + ''.join('  k%d = %d;\n' % (i, i) for i in range(12)) + '}',
+ 'many_items': '[\n' + ''.join('  %d\n' % i for i in range(12)) + ']',
+ 'with_let_set': 'with pkgs;\nlet\n  a = 1;\nin\n{\n  b = a;\n}',
+ 'assert_chain': 'assert a;\nassert b;\nassert c;\nx',
+ 'if_in_binding': '{\n  v =\n    if a then\n      b\n    else if c then\n      d\n    else\n      e;\n}',
+ 'inherit_mix': '{\n  inherit a b;\n  inherit (pkgs) c d;\n  e = 1;\n}',
+ 'concat_chain4': 'a\n++ b\n++ c\n++ d',
+ 'comments_everywhere': '# top\n{\n  # first\n  a = 1; # eol\n\n  # second\n  b = [\n    # item\n    1 # one\n  ];\n  # last\n}',
+}
 def iter_cells():
     """yields (site, text, kind_name): site = [construct, slot, kind, context]"""
     for cname, expr in CONSTRUCTS.items():
@@ -65,8 +97,8 @@ def iter_cells():
                     lp = lex(p)
                     if lp is None or code(lp[0]) != code(toks): continue
                     yield [cname, '%s|%s' % (toks[slot - 1][2], toks[slot][2]), kname, ctx], p, lp
-    for a in ATOMS:
-        for ctx, wrap in CONTEXTS.items():
+    for a in ATOMS + EMPTIES:
+        for ctx, wrap in list(CONTEXTS.items()) + list(ATOM_CONTEXTS.items()):
             p = wrap(a) + '\n'; lp = lex(p)
             if lp is None: continue
             yield ['atom', a[:40], 'canonical', ctx], p, lp
